@@ -706,7 +706,6 @@ func overtakenRequest(rp *reporter, idx int, rng *rand.Rand, rec *chain.RecDB, s
 	wPrev, wNext *world, blocks []headInfo, commit func() error, next headInfo, nb *core.Block,
 	addrPool, slotPool, classPool []*big.Int, reqID *int,
 ) error {
-	r := rp.r
 	n := len(blocks) // number of the block being committed
 	q := genRequest(rng, wPrev, addrPool, slotPool, classPool)
 	q.Version = []string{"v0_10", "v0_9", "v0_8"}[rng.IntN(3)]
@@ -721,11 +720,13 @@ func overtakenRequest(rp *reporter, idx int, rng *rand.Rand, rec *chain.RecDB, s
 	q.MustServe = true
 	*reqID++
 	req := q.json(*reqID)
-	var raw []byte
-	var herr, cerr error
-	ask := func() { raw, _, herr = servers[q.Version].HandleReader(context.Background(), strings.NewReader(req)) }
-	// position: among the reads this very request performs
+	ask := func() { _, _, _ = servers[q.Version].HandleReader(context.Background(), strings.NewReader(req)) }
+	// position: among the reads this very request performs (every other time; the undisturbed
+	// request warms whatever the handler caches, so the other half goes in cold at a small k)
 	nreads := 0
+	if rng.IntN(2) == 0 {
+		return overtakenJudge(rp, idx, rng, rec, servers, backend, wPrev, wNext, blocks, commit, next, nb, q, req, 1+rng.IntN(30), 0)
+	}
 	rec.SetOnRead(func([]byte) { nreads++ })
 	if rp.guard(idx, "rpc:"+q.Version+":getStorageProof", func() any { return rpcWitness{Backend: backend, Version: q.Version, Request: req} }, ask) {
 		rec.SetOnRead(nil)
@@ -735,7 +736,17 @@ func overtakenRequest(rp *reporter, idx int, rng *rand.Rand, rec *chain.RecDB, s
 	if nreads == 0 {
 		return commit()
 	}
-	k := 1 + rng.IntN(nreads)
+	return overtakenJudge(rp, idx, rng, rec, servers, backend, wPrev, wNext, blocks, commit, next, nb, q, req, 1+rng.IntN(nreads), nreads)
+}
+
+func overtakenJudge(rp *reporter, idx int, rng *rand.Rand, rec *chain.RecDB, servers map[string]*jsonrpc.Server, backend string,
+	wPrev, wNext *world, blocks []headInfo, commit func() error, next headInfo, nb *core.Block, q rpcRequest, req string, k, nreads int,
+) error {
+	r := rp.r
+	n := len(blocks)
+	var raw []byte
+	var herr, cerr error
+	ask := func() { raw, _, herr = servers[q.Version].HandleReader(context.Background(), strings.NewReader(req)) }
 	var fired bool
 	if rp.guard(idx, "rpc:"+q.Version+":getStorageProof:overtaken", func() any { return rpcWitness{Backend: backend, Version: q.Version, Request: req} }, func() {
 		fired, _ = rec.Overtake(k, 300*time.Millisecond, ask, func() { cerr = commit() })
@@ -762,6 +773,12 @@ func overtakenRequest(rp *reporter, idx int, rng *rand.Rand, rec *chain.RecDB, s
 	var resp jResponse
 	if herr != nil || json.Unmarshal(raw, &resp) != nil || (resp.Result == nil) == (resp.Error == nil) {
 		rp.viol("rpc:overtaken:malformed-response", idx, fmt.Sprintf("%s/%s: unusable response to %s: %v", backend, q.Version, req, herr), wit("unusable response"))
+		return nil
+	}
+	if resp.Error != nil && resp.Error.Code == 42 && q.BlockNum >= 0 {
+		// the request names block n-1 by number / hash; by the time the handler looked, block n was
+		// the head and proofs are served for the head only ("too far in the past"): a legitimate answer
+		r.Count("rpc.overtaken.request_for_the_old_head_refused_as_historical", 1)
 		return nil
 	}
 	if resp.Error != nil {
